@@ -102,8 +102,56 @@ def atoms(t, stop_ops=(), seen=None):
 
 
 def leaves(t):
-    """everything t may depend on"""
+    """everything t may depend on through data flow"""
     return atoms(t)
+
+
+def phi_site(eng, key):
+    """(frame_key, block) of a phi key, looking through derived-key prefixes"""
+    for i in range(len(key) - 1):
+        if isinstance(key[i], str) and key[i] in eng.frames and isinstance(key[i + 1], (int, str)):
+            return (key[i], key[i + 1])
+    return None
+
+
+def leaves_cd(eng, t):
+    """data dependences plus control dependences: for every phi reached, the conditions that decide which
+    incoming value it takes (switch discriminants between the merge's immediate dominator and the merge)"""
+    out = set()
+    seen = set()
+    stack = [t]
+    while stack:
+        x = stack.pop()
+        if isinstance(x, (tuple, frozenset, list)):
+            stack.extend(x)
+            continue
+        if not isinstance(x, Term) or x.id in seen:
+            continue
+        seen.add(x.id)
+        p = path_of(x)
+        if p is not None:
+            out.add(("param", p))
+            continue
+        op = x.op
+        if op == "rng":
+            out.add(("rng", x.args[0], x.args[1], x.args[2]))
+            stack.append(x.args[3])
+            continue
+        if op == "bytes":
+            out.add(("bytes", x.args[0]))
+            continue
+        if op == "phi":
+            inc = PHI.get(x.args[0])
+            if inc:
+                stack.extend(inc.values())
+            site = phi_site(eng, x.args[0])
+            if site is not None:
+                stack.extend(eng.ctrl.get(site, ()))
+            continue
+        if op in ("ref", "undef"):
+            continue
+        stack.extend(x.args)
+    return out
 
 
 def raw(t, oneway=ONEWAY):
